@@ -40,18 +40,20 @@ add("c18_fenwick_maxpair_l8_k4", 300, "MaxBitTree<(u32,u32)> len 8, 4 updates", 
 
 # ---------------------------------------------------------------------------------------------------------------- C17
 add = prop("C17", "c17",
- "Bounded model checking of the real RankSelect code: for each listed bit-vector length n and superblock factor k, ALL 2^n bit contents and ALL query arguments (i in [0,n+1], j in [0,n+1]) are covered by one solver query each; rank_1/rank_0/get are compared with counting loops, select_1/select_0 with a naive scan (None for j=0 and j>count, never a padding bit), and the inverse laws rank(select(j)) = j are asserted.",
- "Bound: rank at n in {1,7,8,9,31,33} (quick) + {40,65,72 with k in {1,2}} (thorough); select at n in {1,7,8,9} (quick) + {16,17,24} (thorough). " + TRUST + "Not decided: WaveletMatrix (its level construction partitions symbolic symbols into Vecs of symbolic length: n=3 timed out at 15 min, n>=5 out of memory) and select beyond n=24 (timeout at n=31).",
+ "Bounded model checking of the real RankSelect code: for each listed bit-vector length n and superblock factor k, ALL 2^n bit contents and ALL query arguments (i in [0,n+1], j in [0,n+1]) are covered by one solver query each; rank_1/rank_0/get are compared with popcounts of a word model of the vector, select_1/select_0 against the declarative definition (the returned position holds a matching bit and exactly j matching bits lie at or before it; None iff j=0 or j exceeds the count; never a padding bit), and the inverse laws rank(select(j)) = j are asserted.",
+ "Bound: rank at n in {1,7,8,9,31,33,40,65,72} (quick; k in {1,2}) + n=128 (thorough); select at n in {1,8,9,31,33,40} (quick) + {7,16,17,24,65,72; k in {1,2}} (thorough); rank/select inverse law at n=9 (quick), 33, 65 (thorough). " + TRUST + "Not decided: WaveletMatrix (its level construction partitions symbolic symbols into Vecs of symbolic length: n=3 timed out at 15 min, n>=5 out of memory).",
  ["bio::data_structures::rank_select::RankSelect::{new,rank_1,rank_0,select_1,select_0,select_x,get}", "rank_select::superblocks", "rank_select::SuperblockRank::{cmp,deref}", "bv::BitVec<u8>::{new_fill,set,get_block,len,block_len}"],
- "n <= 72 bits for rank (k in {1,2}), n <= 24 bits for select (k = 1); all bit contents and all query arguments symbolic",
+ "n <= 128 bits for rank, n <= 72 bits for select (k in {1,2}); all bit contents and all query arguments symbolic",
  "longer bit vectors; superblock factors > 2; WaveletMatrix::rank",
- ["bit vectors are built through BitVec::new_fill(false, n) + set(i, b): padding bits of the last byte are zero, as the API leaves them"])
-for n, t in [(1, 19), (7, 28), (8, 24), (9, 42), (31, 152), (33, 170)]:
-    add(f"c17_rank_n{n}_k1", t, f"rank_1/rank_0/get, n={n} bits, k=1, all contents, i in [0,n+1]", **({"min_covers": 1} if n <= 8 else {}))
-for n, k, t in [(40, 1, 219), (65, 1, 464), (65, 2, 611), (72, 2, 563)]:
-    add(f"c17_rank_n{n}_k{k}", t, f"rank_1/rank_0/get, n={n} bits, k={k}", tier="thorough")
-for n, t in [(1, 209), (7, 243), (8, 245), (9, 208)]:
-    add(f"c17_select_n{n}_k1", t, f"select_1/select_0 + inverse laws, n={n} bits, k=1, all contents, j in [0,n+1]")
+ ["bit vectors are built through BitVec::new_fill(false, n) + set_block for whole bytes + set(i, b) for the last partial byte: padding bits of the last byte are zero, as the API leaves them"])
+for n, k, t, tier in [(1, 1, 15, "quick"), (7, 1, 18, "quick"), (8, 1, 18, "quick"), (9, 1, 19, "quick"), (31, 1, 32, "quick"), (33, 1, 33, "quick"),
+                      (40, 1, 50, "quick"), (65, 1, 100, "quick"), (65, 2, 110, "thorough"), (72, 2, 120, "quick"), (128, 2, 229, "thorough")]:
+    add(f"c17_rank_n{n}_k{k}", t, f"rank_1/rank_0/get, n={n} bits, k={k}, all contents, i in [0,n+1]", tier=tier, **({"min_covers": 1} if n <= 8 else {}))
+for n, k, t, tier in [(1, 1, 109, "quick"), (7, 1, 109, "thorough"), (8, 1, 127, "quick"), (9, 1, 125, "quick"), (16, 1, 130, "thorough"), (17, 1, 149, "thorough"),
+                      (24, 1, 142, "thorough"), (31, 1, 164, "quick"), (33, 1, 202, "quick"), (40, 1, 215, "quick"), (65, 1, 464, "thorough"), (65, 2, 593, "thorough"), (72, 2, 636, "thorough")]:
+    add(f"c17_select_n{n}_k{k}", t, f"select_1/select_0 (declarative oracle: returned position is the j-th matching bit, None iff j=0 or j>count), n={n} bits, k={k}, all contents, j in [0,n+1]", tier=tier, **({"min_covers": 2} if n <= 32 else {}))
+for n, k, t, tier in [(9, 1, 135, "quick"), (33, 1, 250, "thorough"), (65, 2, 553, "thorough")]:
+    add(f"c17_inverse_n{n}_k{k}", t, f"rank_x(select_x(j)) == j, n={n} bits, k={k}", tier=tier)
 
 # ---------------------------------------------------------------------------------------------------------------- C20
 add = prop("C20", "c20",
@@ -74,8 +76,8 @@ add("c20_gc_n7", 4, "gc_content/gc3_content, length 7", min_covers=2)
 
 # ---------------------------------------------------------------------------------------------------------------- C08
 add = prop("C08", "c08",
- "Bounded model checking of the real ShiftAnd / BNDM / KMP code: for each listed (pattern length m, text length n, alphabet) ALL pattern and text contents are covered by one solver query; the iterator must yield exactly the naive-scan occurrence starts in increasing order and then None; texts shorter than the pattern and reuse of one matcher on two texts are separate instances; the 63/64-symbol boundary of the bit-parallel matchers is covered with a concrete period-3 pattern and ALL texts over {A,C}.",
- "Bound: m<=3, n<=6 over 3 symbols and m=2,n=3 over all 256 byte values (quick), m<=3,n<=8 (thorough); m in {63,64} with n in {64,65,67} for ShiftAnd and BNDM with a concrete pattern. " + TRUST + "Not decided: Horspool (vec![m; 256] + symbolic shifts: timeout 10 min at m=1) and BOM (Vec<VecMap> whose shape depends on symbolic symbols: out of memory at m=1).",
+ "Bounded model checking of the real ShiftAnd / BNDM / KMP code: for each listed (pattern length m, text length n, alphabet) ALL pattern and text contents are covered by one solver query; the iterator must yield exactly the naive-scan occurrence starts in increasing order and then None; texts shorter than the pattern and reuse of one matcher on two texts are separate instances; the 63/64-symbol boundary of ShiftAnd is covered with a concrete period-3 pattern and ALL texts over {A,C}; structured concrete patterns (unary, nested borders, Fibonacci, ruler words) are covered against ALL texts of length 6-12 over their alphabet.",
+ "Bound: m<=3, n<=6 over 3 symbols and m=2,n=3 over all 256 byte values (quick), m<=3,n<=8 (thorough); m in {63,64} with n in {64,65,67} for ShiftAnd and BNDM with a concrete pattern. " + TRUST + "Not decided: Horspool (vec![m; 256] heap table + symbolic shifts: timeout 15 min even with a concrete pattern of one symbol) and BOM beyond a one-symbol pattern (Vec<VecMap>: out of memory).",
  ["bio::pattern_matching::shift_and::{ShiftAnd::new, ShiftAnd::find_all, masks, Matches::next}", "bio::pattern_matching::bndm::{BNDM::new, BNDM::find_all, Matches::next}", "bio::pattern_matching::kmp::{KMP::new, KMP::find_all, KMP::delta, lps, Matches::next}"],
  "see level_note", "Horspool, BOM; patterns longer than 3 symbols except the 63/64 boundary instances; texts longer than 8 (67 for the boundary instances)",
  [])
@@ -91,6 +93,20 @@ for h, t, b, tier in [
  ("c08_shiftand_fixed_m63_n64", 125, "ShiftAnd, concrete period-3 pattern of 63 symbols, all texts of length 64 over {A,C}", "quick"),
  ("c08_shiftand_fixed_m64_n64", 130, "ShiftAnd, concrete pattern of 64 symbols (documented maximum), all texts of length 64 over {A,C}", "quick"),
  ("c08_shiftand_fixed_m64_n65", 140, "ShiftAnd, concrete pattern of 64 symbols, all texts of length 65 over {A,C}", "quick"),
+]:
+    add(h, t, b, tier=tier)
+for h, t, b, tier in [
+ ("c08_bndm_fix_aaa_n6", 19, "BNDM, concrete pattern aaa x all texts of length 6 over {a,b}", "quick"),
+ ("c08_bndm_fix_acag_n6", 17, "BNDM, concrete pattern acag x all texts of length 6 over {a,c,g}", "quick"),
+ ("c08_bndm_fix_nest_n10", 85, "BNDM, concrete pattern abaabaa (three nested borders) x all texts of length 10 over {a,b,c}", "quick"),
+ ("c08_bndm_fix_ruler_n10", 64, "BNDM, concrete ruler pattern abacabad x all texts of length 10 over {a,b,c,d}", "quick"),
+ ("c08_kmp_fix_aaa_n7", 109, "KMP, concrete pattern aaa x all texts of length 7 over {a,b}", "quick"),
+ ("c08_kmp_fix_acag_n8", 159, "KMP, concrete pattern acag x all texts of length 8 over {a,c,g}", "quick"),
+ ("c08_kmp_fix_fib_n12", 730, "KMP, concrete Fibonacci-word pattern abaababa x all texts of length 12 over {a,b,c}", "thorough"),
+ ("c08_kmp_fix_ruler_n12", 717, "KMP, concrete ruler pattern abacabad x all texts of length 12 over {a,b,c,d}", "thorough"),
+ ("c08_shiftand_fix_aaa_n7", 14, "ShiftAnd, concrete pattern aaa x all texts of length 7 over {a,b}", "quick"),
+ ("c08_shiftand_fix_nest_n12", 26, "ShiftAnd, concrete pattern abaabaa x all texts of length 12 over {a,b,c}", "quick"),
+ ("c08_bom_fix_a_n3", 11, "BOM, concrete pattern a x all texts of length 3 over {a,b} (the only BOM instance within reach)", "quick"),
 ]:
     add(h, t, b, tier=tier)
 add("c08_bndm_sparse_m64_n64_k0", 16, "BNDM, concrete pattern of 64 symbols (documented maximum) on the one concrete text equal to the pattern: shape-only guard for the 64-symbol boundary (a symbolic text at this length exhausts memory)", min_covers=1)
@@ -126,6 +142,22 @@ for h, t, b, tier in [
  ("c09_long_u8_dist_m9_n1_a2", 31, "long::Myers<u8> distance/find_best_end, m=9 (2 blocks) n=1", "quick"),
 ]:
     add(h, t, b, tier=tier, role="long_distance" if "long" in h else "myers_simple", **({} if "long" in h else {"min_covers": 2}))
+
+# ---------------------------------------------------------------------------------------------------------------- C19
+add = prop("C19", "c19",
+ "Bounded model checking of the real q-gram machinery: for each listed (alphabet size, q, text length) ALL texts over the alphabet are covered by one solver query; RankTransform::qgrams must yield exactly the packed-rank code of every window (definition), codes of two windows are equal iff the windows are equal (injectivity), rev_qgrams mirrors qgrams, and QGramIndex::qgram_matches lists for the q-gram at a symbolic position exactly the ascending occurrence positions (or nothing above max_count).",
+ "Bound: alphabets of size 1, 3 and 5 (small byte values), q in {1,2}, texts of length <= 4 (5 for the index). " + TRUST + "Alphabet sizes that are exact powers of two cannot be decided: the code computes ceil(log2(|A|)) in f32 and CBMC's model of log2f is not exact at powers of two (the solver reports spurious counterexamples that do not replay natively; such results are classified inconclusive, never violations), so those instances are not listed. Not decided: lcskpp/sdpkpp (Fenwick tree of symbolic length: out of memory at 2 matches), matches/exact_matches (std HashMap), find_kmer_matches* (FxHashMap with symbolic keys).",
+ ["bio::alphabets::RankTransform::{new,get,qgrams,rev_qgrams}", "alphabets::QGrams::{next,qgram_push}", "alphabets::RevQGrams::{next,qgram_push_rev}", "bio::data_structures::qgram_index::QGramIndex::{with_max_count,qgram_matches}", "bio::utils::prescan"],
+ "see level_note", "alphabet sizes 2,4,8,...; q >= 3; longer texts; chaining; hash-based matching", [])
+for h, t, b in [
+ ("c19_qgrams_a1_q2_n3", 14, "qgrams/rev_qgrams, |A|=1, q=2, text length 3"),
+ ("c19_qgrams_a3_q2_n4", 23, "qgrams/rev_qgrams, |A|=3, q=2, all texts of length 4"),
+ ("c19_qgrams_a5_q2_n4", 33, "qgrams/rev_qgrams, |A|=5, q=2, all texts of length 4"),
+ ("c19_qgidx_a3_q2_n4", 60, "QGramIndex, |A|=3, q=2, all texts of length 4, symbolic position"),
+ ("c19_qgidx_a5_q2_n4", 90, "QGramIndex, |A|=5, q=2, all texts of length 4"),
+]:
+    add(h, t, b, role="qgram")
+add("c19_qgidx_a3_q1_n4", 67, "QGramIndex, |A|=3, q=1, all texts of length 4", role="qgram", min_covers=1)
 
 json.dump(P, open(os.path.join(V, "instances.json"), "w"), indent=1)
 print({k: len(v["instances"]) for k, v in P.items()})
